@@ -48,7 +48,7 @@ pub fn merge_check<T: UniMerge + UniIngest>(prop: &'static str, alpha_name: &str
         alpha_name: format!("{alpha_name}{k}"),
         alpha: sub_alphabet(alpha_name, k),
         max_len,
-        cap_per_word: 20_000,
+        cap_per_word: 4_000,
         judge: moment_judge::<T>(filter, cache, board, T::ORDER >= 4),
         extra: Box::new(move || json!({"worst_error_over_envelope": b2.dump(), "distinct_multisets": c2.len()})),
     })
